@@ -34,16 +34,20 @@ LIB_PROGRAMS = [
     ("r = ndx.astype(a, ndx.nfloat64)", [("cast", "r")], NUMS),
     ("r = ndx.where(a == a, a, a)", [("w2", "r")], [x for x in ALL if x.startswith("n")]),
     ("r = ndx.logical_and(a > 0, a < 5)", [("m", "r")], NUMS),
+    # indexing with new axes next to stepped / bounded slices (declared dims must survive the checker's shape inference)
+    ("r = a[None, 1:, ...]", [("g1", "r")], ALL, 1), ("r = a[..., None, ::2]", [("g2", "r")], ALL, 1), ("r = a[None, ::-1, ...]", [("g3", "r")], ALL, 1),
+    ("r = a[0:1, None, ...]", [("g4", "r")], ALL, 1), ("r = a[None, :, 1:]", [("g5", "r")], ALL, 2), ("r = a[None, None, 1:3, ...]", [("g6", "r")], ALL, 1),
+    ("r = a[-1, None, :2]", [("g7", "r")], ALL, 2),
     ("r = ndx.additional.fill_null(a, a.values) if hasattr(a, 'null') and a.null is not None else a + 0", [("filled", "r")], [x for x in NUMS if x.startswith("n")]),
 ]
 
 
 def gen_case(rnd, i):
     if i % 3 == 2:
-        prog, outs, dts = rnd.choice(LIB_PROGRAMS)
+        prog, outs, dts, *mr = rnd.choice(LIB_PROGRAMS)
         d = rnd.choice(dts)
-        r = rnd.randint(0, 2)
-        sig = [rnd.choice([rnd.randint(1, 3), "N", None]) for _ in range(r)]
+        r = rnd.randint(mr[0] if mr else 0, 2)
+        sig = [rnd.choice([rnd.randint(1, 4), rnd.randint(2, 4), "N", None]) for _ in range(r)]
         conc = [s_ if isinstance(s_, int) else rnd.choice([1, 2, 3]) for s_ in sig]
         return {"id": f"B-{i}", "inputs": {"a": {"dtype": d, "sig": sig}}, "input_order": ["a"], "program": prog, "outputs": outs,
                 "values": {"a": ops.tensor(rnd, d, conc, "small")}, "meta": {"dtype": d, "sig": sig}}
